@@ -51,12 +51,14 @@ def django_bases(env):
 def sa_bases(env, style):
     sa = env["sa"]; P, O, W, K = env["P"], env["O"], env["W"], env["K"]
     from sqlalchemy.orm import aliased
+    import sqlalchemy.orm as _orm
     PA = aliased(P)
     if style == "legacy":
         q = lambda: oc.sa_session().query(P)
         return [("query", q, None), ("pre-filtered", lambda: q().filter(P.a >= 0), None), ("pre-joined P.o (used)", lambda: q().join(P.o), "join:o"),
                 ("pre-joined outer P.o", lambda: q().outerjoin(P.o), "join:o"), ("pre-joined P.w (maybe unused)", lambda: q().outerjoin(P.w), "join:w"), ("pre-joined P.dept (natural key)", lambda: q().outerjoin(P.dept), None),
                 ("pre-joined P.o filtered on it", lambda: q().join(P.o).filter(O.n == 5), "join:o"), ("ordered desc", lambda: q().order_by(P.id.desc()), "order"),
+                ("joinedload(P.o)", lambda: q().options(_orm.joinedload(P.o)), None), ("joinedload(P.w).joinedload(W.o)", lambda: q().options(_orm.joinedload(P.w).joinedload(W.o)), None),
                 ("aliased root", lambda: oc.sa_session().query(PA), None), ("aliased root pre-filtered", lambda: oc.sa_session().query(PA).filter(PA.a >= 0), None)]
     if style == "core":
         t = P.__table__; ot = O.__table__; kt = K.__table__
@@ -72,6 +74,10 @@ def sa_bases(env, style):
             ("pre-joined outer P.o", lambda: s().outerjoin(P.o), "join:o"), ("pre-joined P.w (maybe unused)", lambda: s().outerjoin(P.w), "join:w"),
             ("pre-joined P.o filtered on it", lambda: s().join(P.o).where(O.n == 5), "join:o"), ("ordered desc", lambda: s().order_by(P.id.desc()), "order"),
             ("pre-joined W via P.w then W.o", lambda: s().outerjoin(P.w).outerjoin(W.o), "join:w"),
+            # loader options: joinedload joins under an anonymous alias a WHERE clause cannot refer to (not "already joined"); contains_eager uses the explicit join
+            ("joinedload(P.o)", lambda: s().options(_orm.joinedload(P.o)), None), ("joinedload(P.o) + joinedload(P.w)", lambda: s().options(_orm.joinedload(P.o), _orm.joinedload(P.w)), None),
+            ("selectinload(P.kids)", lambda: s().options(_orm.selectinload(P.kids)), None), ("join + contains_eager(P.o)", lambda: s().join(P.o).options(_orm.contains_eager(P.o)), "join:o"),
+            ("joinedload(P.o) pre-filtered", lambda: s().options(_orm.joinedload(P.o)).where(P.a >= 0), None),
             # the root entity is an ALIAS of the model (self-joins need one): names resolve against the alias the query selects from
             ("aliased root", lambda: sa.select(PA), None), ("aliased root pre-filtered ordered", lambda: sa.select(PA).where(PA.a >= 0).order_by(PA.id.desc()), "order")]
 
@@ -152,6 +158,10 @@ def sa_ids(q, style, ordered=False):
     env = dbenv.sa_env()
     if style == "legacy":
         ids = [r.id for r in q.all()]
+    elif style == "orm":
+        # through a Session: the rows are ENTITIES (loader options such as contains_eager add the related table's columns to the statement, so the first
+        # column of a raw row is not always p.id)
+        ids = [e.id for e in oc.sa_session().execute(q).unique().scalars().all()]
     else:
         with env["engine"].connect() as c:
             ids = [r[0] for r in c.execute(q).fetchall()]
